@@ -140,7 +140,12 @@ def check_obligations(ctx, theorems):
             ctx.obligations.append({'name': t, 'ok': False, 'detail': 'module does not build'})
         ctx.notes.append('lake build failed: ' + ctx.build_log[-1500:])
         return broken + list(theorems)
-    ok, ax, out = lean_tools.axioms_of_module(rel)
+    # the `#print axioms` lines of Props/<id>.lean: taken from the log of the build that produced (or replayed) the
+    # module's .olean; only if a theorem is missing there is the file re-elaborated
+    ok, ax, out = True, lean_tools.axioms_from_log(ctx.build_log, rel), ''
+    if any(t not in ax for t in theorems):
+        ok, ax, out = lean_tools.axioms_of_module(rel)
+        ctx.notes.append('axioms audit by re-elaboration of ' + rel)
     for t in theorems:
         if t not in ax:
             ctx.obligations.append({'name': t, 'ok': False, 'detail': 'no #print axioms line (theorem missing or file fails)'})
